@@ -90,6 +90,7 @@ def sites(m, limit=None, accept_biased=False, coords=False):
             out.append(("lh.drop_box_consistently", (lv, b)))
             if nb >= 2:
                 out.append(("lh.swap_fab_lines", (lv, b)))
+                out.append(("lh.fab_line_of_next_box", (lv, b)))
             if accept_biased:
                 out.append(("cos.offset_plus_sign", (lv, b)))
                 out.append(("cos.offset_zero_padded", (lv, b)))
@@ -338,6 +339,12 @@ def apply(path, m, op, args):
             elif op == "lh.swap_fab_lines":
                 o = L["fab0"] + (b + 1) % n
                 lines[fl], lines[o] = lines[o], lines[fl]
+            elif op == "lh.fab_line_of_next_box":
+                # this box alone records the file and position of the next box's FAB (a duplicate entry)
+                o = L["fab0"] + (b + 1) % n
+                if lines[o] == lines[fl]:
+                    return None
+                lines[fl] = lines[o]
             elif op == "cos.fab_keyword":
                 t = lines[fl].split()
                 lines[fl] = f"FabOnDisk {t[1]} {t[2]}"
